@@ -66,6 +66,7 @@ type multiUseList []*multiUseEntry
 // channel. if the closure returns a list, the list is evaluated before it is
 // sent to the result channel.
 func (mu *multiUseEntry) runConsumer(itera iterator.Producer[Value], done func(error)) {
+	verifPoint("multiUse.runConsumer", 0, 0)
 	st := funcGen.NewEmptyStack[Value]()
 	used := false
 	var innerErr error
